@@ -217,7 +217,7 @@ func (f *flower) flow(v ssa.Value, acc litSet, depth int) (bool, litSet) {
 					idx = i
 				}
 			}
-			merge(f.flowReturn(fn, idx, a2, depth+1))
+			merge(f.flowReturn(fn, idx, a2, depth+1, x))
 		case ssa.CallInstruction:
 			c := x.Common()
 			a2 := acc.union(f.blockLits(x))
@@ -376,7 +376,7 @@ func (f *flower) flowCell(cell *ssa.Alloc, acc litSet, depth int) (bool, litSet)
 				// `v := build(); return &v`: the address of the variable holding the value is handed on
 				for i, res := range x.Results {
 					if res == al {
-						merge(f.flowReturn(x.Parent(), i, acc.union(f.blockLits(x)), depth+1))
+						merge(f.flowReturn(x.Parent(), i, acc.union(f.blockLits(x)), depth+1, x))
 					}
 				}
 			case ssa.CallInstruction:
@@ -402,7 +402,7 @@ func (f *flower) flowCell(cell *ssa.Alloc, acc litSet, depth int) (bool, litSet)
 }
 
 // flowReturn: the value is result #idx of fn; it must flow on at ALL static product call sites.
-func (f *flower) flowReturn(fn *ssa.Function, idx int, acc litSet, depth int) (bool, litSet) {
+func (f *flower) flowReturn(fn *ssa.Function, idx int, acc litSet, depth int, ret *ssa.Return) (bool, litSet) {
 	callers := f.P.Callers(fn)
 	if f.viaFn == fn && f.viaCall != nil {
 		callers = []ssa.CallInstruction{f.viaCall}
@@ -448,6 +448,33 @@ func (f *flower) flowReturn(fn *ssa.Function, idx int, acc litSet, depth int) (b
 			all = false
 			f.dropped = append(f.dropped, "result of "+FuncName(fn)+" does not reach the reporter from call site "+f.P.Pos(c.Pos())+" in "+FuncName(c.Parent()))
 			continue
+		}
+		// `v, ok := helper(x); if ok { use(v) }`: a condition on another result of the same call is, on this path,
+		// the value this return statement gives for it - true / false, or the conditions that make it up
+		if ret != nil && fn.Signature.Results().Len() > 1 {
+			impossible := false
+			g2 := litSet{}
+			for k, l := range g {
+				ex, isEx := l.Val.(*ssa.Extract)
+				if l.Kind != "cond" || !isEx || ex.Tuple != val || ex.Index == idx || ex.Index >= len(ret.Results) {
+					g2[k] = l
+					continue
+				}
+				sib := ret.Results[ex.Index]
+				if b, isC := constBool(sib); isC {
+					if b != l.Pos {
+						impossible = true
+					}
+					continue
+				}
+				for _, nl := range literals(f.P.condFormula(sib, 0), l.Pos) {
+					g2[nl.String()] = nl
+				}
+			}
+			if impossible {
+				continue // this return never reaches the use under that condition
+			}
+			g = g2
 		}
 		// literals about the returned value itself are made comparable across call sites:
 		// the descriptor of this call is replaced by a placeholder
